@@ -345,6 +345,7 @@ class WeeklyCalendar(IWorkCalendar):
             units_per_day: Union[int, float, Dict[int, float]] = None,
     ):
         WeeklyCalendar.__check_working_days(days)
+        WeeklyCalendar.__check_start_end(start, end)
 
         if units_per_day is None:
             raise RuntimeError("units_per_day not specified")
